@@ -54,6 +54,8 @@ P = {
              text="Exploration: every mutator history of length <=3 (quick) / <=4 (thorough) over a 14-symbol alphabet plus 20k / 2M random 40-op histories, "
                   "each on a random configuration; after every single op all content observers and return values are compared with an executable list model. "
                   "Held on the executions produced, not a proof.", ref="2 C01"),
+ "C20": dict(tech="runtime monitor: before/after live descriptions with node identity; leaf-sequence, unwrapped-normal-form, depth and protected-node oracles; lock-point hook detecting re-entrant acquisition and leaked locks",
+             text="Exploration: all single-child chains of length <=4 / <=5 over kind x parenthetical with three endings (33k / 333k) plus 30k / 3M random chain-biased trees with Conditions, aliases, empty stacks and mutex-enabled nodes; Reveal applied twice, five oracles per application.", ref="2 C20"),
 }
 
 NOT_BUILT = "check not built yet in this session (planned; see DESIGN.md section 2)"
